@@ -22,10 +22,9 @@ From GV Require Import Model.StreamIR Model.StreamSem Model.GuardKernel.
 Import ListNotations.
 
 (* ---- _maybe_finish, as a program over the generated operations ---- *)
-Definition E_transport_closing : envpred := E_untracked 0.   (* self._stream._transport.is_closing() *)
-
+(* (the repaired code no longer skips the finish when the transport is closing) *)
 Definition maybe_finish_prog : program :=
-  [SIf (CAnd (CNot (CFlag F_cancel_done)) (CNot (CEnv E_transport_closing)))
+  [SIf (CNot (CFlag F_cancel_done))
        [SIf (CNot (CFlag F_recv_initial_metadata_done)) [SAwaitSelf OpRecvInitialMetadata] [];
         SIf (CNot (CFlag F_recv_trailing_metadata_done)) [SAwaitSelf OpRecvTrailingMetadata] []]
        []].
@@ -357,8 +356,7 @@ Definition cell_env (c : cell) (closing : bool) (q : envpred) : bool :=
   | E_has_grpc_status => match c_status c with StTonly _ => true | _ => false end
   | E_got_message => false
   | E_closable => false
-  | E_untracked 0 => closing
-  | E_untracked _ => c_deadline c
+  | E_untracked _ => c_deadline c      (* (`closing` is no longer read by any modelled condition) *)
   end.
 
 Definition cell_cx (c : cell) (e closing : bool) : tcx :=
